@@ -407,7 +407,8 @@ PROPS.update({
                       "Pyro5.server.Daemon._clientDisconnect#streams", "Pyro5.server.Daemon._housekeeping#streams",
                       "Pyro5.client._StreamResultIterator.__next__", "Pyro5.client._StreamResultIterator.close"],
         "lemmas": ["C10:stream-table-frame"],
-        "groups": [{"modules": _DISPATCH_MODS, "contracts": [_HR]}],
+        "groups": [{"modules": _DISPATCH_MODS, "contracts": [_HR]},
+                   {"modules": _DISPATCH_MODS + ["contracts.client_invoke"], "contracts": ["Pyro5.client.Proxy._pyroInvoke"]}],
         "harness": ["replay/c10.py", "replay/c10_sched.py"],
         "explanation": "per-operation contracts over the stream table T : id -> (owner, created, linger start, iterator), stated for one arbitrary id (free constant = "
                        "every id): registration adds exactly one entry (this connection, now, not lingering, the iterator) or nothing; get_next_stream_item returns "
@@ -430,7 +431,7 @@ PROPS.update({
                         "BaseException subclasses that are not Exceptions are outside the model; time.time() is a non-decreasing positive real",
                         "uuid4 ids are assumed not to collide with ids in the table (the frame condition for other streams is conditional on that)",
                         "Proxy._pyroInvoke by its call-site interface (any result or any exception class); Proxy.__copy__/__enter__/__exit__ as declared; the client half "
-                        "of the stream announcement (Proxy._pyroInvoke turning the STRM annotation of an ITEMSTREAMRESULT reply into a _StreamResultIterator) is exercised by the bounded harness only",
+                        "of the stream announcement: Proxy._pyroInvoke (third group) returns a stream iterator bound to this proxy exactly for a reply flagged ITEMSTREAMRESULT and never hands such a reply back as plain data; that the iterator's id is the text of the reply's STRM annotation is exercised by the bounded harness only (the annotation lookup is modelled as 'some value of the dict')",
                         "expiry is decided at the housekeeping step following it (an expired, not yet housekept stream may still answer)"],
     },
     "C14": {
